@@ -310,6 +310,15 @@ def make_inputs(tmp):
     f4 = os.path.join(tmp, 'badinit.json')
     ajson.write(ss, f4)
     out.append(('failed-initialisation', f4, ['tds'], {'tf': 0.2}, False))
+    # ill-posed dynamic data the parser accepts and the power flow solves: a governor with zero droop (1/R = inf,
+    # inf * 0 = NaN in its equations): the initialisation yields a NaN residual
+    ss = andes.load(andes.get_case('kundur/kundur_full.xlsx'), setup=False, no_output=True, default_config=True)
+    ss.TGOV1.R.v[0] = 0.0
+    ss.setup()
+    f5 = os.path.join(tmp, 'nandroop.json')
+    ajson.write(ss, f5)
+    out.append(('nan-initialisation-init-only', f5, ['tds'], {'init': True}, False))
+    out.append(('nan-initialisation', f5, ['tds'], {'tf': 0.2}, False))
     # unstable disturbance: long fault trips the stability criterion
     ss = andes.load(andes.get_case('kundur/kundur_full.xlsx'), setup=False, no_output=True, default_config=True)
     ss.add('Fault', dict(bus=ss.Bus.idx.v[6], tf=0.1, tc=2.0, xf=1e-4))
